@@ -52,7 +52,7 @@ pub fn validate(c: &Phys) -> Result<(usize, usize), Failure> {
 pub fn validate_opt(c: &Phys, allow_disconnected: bool) -> Result<(usize, usize), Failure> {
     let g = &c.g;
     let ne = g.nedges();
-    if ne == 0 || ne > 12 || !(1..=6).contains(&g.d) || g.massive.len() != ne || g.weights.len() != ne {
+    if ne == 0 || ne > 18 || !(1..=6).contains(&g.d) || g.massive.len() != ne || g.weights.len() != ne {
         fail!("bad-case", "graph outside the generator's domain");
     }
     if !g.is_connected() && !allow_disconnected {
@@ -109,6 +109,18 @@ pub fn evaluate<const D: usize>(c: &Phys, ctx: &mut Ctx, stab: Option<f64>) -> R
             ctx.label("skip:build-panic");
             return Ok(None);
         }
+    };
+    // every fourth case samples through a sampler restored from its JSON serialisation: the properties hold for
+    // "a sampler", however it was obtained
+    let hx = c.x.iter().fold(0u64, |a, v| a.wrapping_mul(31).wrapping_add(v.to_bits()));
+    let s = if hx % 4 == 1 {
+        ctx.label("sampler:restored-from-json");
+        match serde_json::to_string(&s).ok().and_then(|t| serde_json::from_str(&t).ok()) {
+            Some(r) => r,
+            None => s,
+        }
+    } else {
+        s
     };
     let tab = match sut::table_of(&s) {
         Ok(t) => t,
